@@ -216,12 +216,24 @@ def build_pools(rng):
         o = Offset.from_seconds(s)
         fz.append((s, None, None, DateTimeZone.for_offset(o), "for_offset")); fz.append((s, None, None, DateTimeZone.for_offset(Offset.from_milliseconds(s * 1000)), "for_offset2"))
     G.append(("FixedZone", False, fz))
+    # fixed zones as the tz data defines them: id, offset and interval name are all part of the value (the same id is served with different
+    # names by different tzdb versions, e.g. Etc/GMT+5 named "Etc/GMT+5" in 2013b and "-05" today)
+    try:
+        from pyoda_time.time_zones._fixed_date_time_zone import _FixedDateTimeZone
+        fz2 = []
+        for s, id_, nm in ((0, "Etc/UTC", "UTC"), (0, "Etc/UTC", "Etc/UTC"), (-18000, "Etc/GMT+5", "-05"), (-18000, "Etc/GMT+5", "Etc/GMT+5"), (-18000, "Other", "-05"), (3600, "Etc/GMT+5", "-05"), (0, "Etc/UTC", "")):
+            for via in ("ctor", "ctor2"):
+                fz2.append(((s, id_, nm), None, None, _FixedDateTimeZone(Offset.from_seconds(s), id_, nm), via))
+        G.append(("FixedZoneNamed", False, fz2))
+    except Exception:  # noqa: BLE001  (private constructor not available in this tree: the group is skipped)
+        pass
     return G
 
 
 def extract(group, v):
     """Component extractor from public accessors only (the 'documented components')."""
     from vf import gen
+    if group == "FixedZoneNamed": return (v.offset.seconds if hasattr(v, "offset") else v.min_offset.seconds, v.id, v.name)
     if group == "Duration": return v.to_nanoseconds()
     if group == "Instant": return gen.inst_ns(v)
     if group == "Offset": return v.seconds
